@@ -5,7 +5,9 @@ import (
 	"context"
 	"io"
 	"os"
+	"os/signal"
 	"path/filepath"
+	"syscall"
 
 	blocks "github.com/ipfs/go-block-format"
 	"github.com/ipfs/go-cid"
@@ -61,10 +63,12 @@ func (o wOpts) v2() []carv2.Option {
 type faultFile struct {
 	f        *os.File
 	faults   []int
-	seq      int64 // cursor for sequential Write
-	borrowed bool  // f belongs to the blockstore (verif hook): not ours to close
-	lens     []int // length of the buffer of every call so far
-	hits     int   // injected faults so far
+	seq      int64   // cursor for sequential Write
+	borrowed bool    // f belongs to the blockstore (verif hook): not ours to close
+	lens     []int   // length of the buffer of every call so far (0 for a Truncate call)
+	offs     []int64 // offset of every call so far (the new length for a Truncate call)
+	hits     int     // injected faults so far
+	inOpen   bool    // inside Open/Resume: Truncate is not part of the script there
 }
 
 var errInjected = io.ErrShortWrite
@@ -81,6 +85,7 @@ func (ff *faultFile) ReadAt(p []byte, off int64) (int, error) { return ff.f.Read
 func (ff *faultFile) WriteAt(p []byte, off int64) (int, error) {
 	k := ff.next()
 	ff.lens = append(ff.lens, len(p))
+	ff.offs = append(ff.offs, off)
 	if k < 0 {
 		return ff.f.WriteAt(p, off)
 	}
@@ -98,7 +103,22 @@ func (ff *faultFile) Write(p []byte) (int, error) {
 	ff.seq += int64(n)
 	return n, err
 }
-func (ff *faultFile) Truncate(n int64) error { return ff.f.Truncate(n) }
+
+// Truncate outside the open phase (the rewind after a failed section write) consumes one entry of
+// the script too: any fault value = the call fails and nothing is truncated.
+func (ff *faultFile) Truncate(n int64) error {
+	if ff.inOpen {
+		return ff.f.Truncate(n)
+	}
+	k := ff.next()
+	ff.lens = append(ff.lens, 0)
+	ff.offs = append(ff.offs, n)
+	if k < 0 {
+		return ff.f.Truncate(n)
+	}
+	ff.hits++
+	return errInjected
+}
 
 // writeOnlyFile hides ReadAt (storage kind 2)
 type writeOnlyFile struct{ ff *faultFile }
@@ -164,6 +184,9 @@ type storeSession struct {
 	ff     *faultFile
 	stream *faultStream
 	prev   []byte
+
+	finalizeAt []int // number of intercepted calls when each blockstore finalize operation started
+	fsizeLimit int64 // > 0: RLIMIT_FSIZE during the next blockstore finalize operation
 }
 
 func (s *storeSession) fileBytes() []byte {
@@ -255,10 +278,73 @@ func (s *storeSession) interposeFaults(faults []int) {
 
 // storeExtra lets a producer observe more of a session without changing runStoreImpl:
 // afterStep (if set) returns extra values appended to each step's observation.
+// finalizeVia is the second verif hook of the blockstore (notes/hooks/c16-blockstore-finalize.patch):
+// Finalize / FinalizeReadOnly with the index and header writes going through a wrapped writer.
+type finalizeVia interface {
+	VerifFinalizeVia(func(io.WriterAt) io.WriterAt) error
+	VerifFinalizeReadOnlyVia(func(io.WriterAt) io.WriterAt) error
+}
+
+// bsFinalize: while the script still holds a fault, the finalize writes go through the wrapper as
+// well (same script, same cursor) by way of the hook's copy of the method; otherwise -- no wrapper,
+// or only "no fault" entries left -- the library's own Finalize / FinalizeReadOnly run (nothing is
+// written after them, so the entries they would have consumed do not matter).
+func (s *storeSession) bsFinalize(readOnly bool) error {
+	if s.ff != nil {
+		s.finalizeAt = append(s.finalizeAt, len(s.ff.lens))
+	}
+	if s.fsizeLimit > 0 {
+		// make the *os.File itself fail: RLIMIT_FSIZE cuts the write that crosses the limit short and
+		// fails it (EFBIG; SIGXFSZ is ignored), only while this one call runs
+		limit := s.fsizeLimit
+		s.fsizeLimit = 0
+		signal.Ignore(syscall.SIGXFSZ)
+		var old syscall.Rlimit
+		if err := syscall.Getrlimit(syscall.RLIMIT_FSIZE, &old); err != nil {
+			panic(err)
+		}
+		if err := syscall.Setrlimit(syscall.RLIMIT_FSIZE, &syscall.Rlimit{Cur: uint64(limit), Max: old.Max}); err != nil {
+			panic(err)
+		}
+		defer func() {
+			if err := syscall.Setrlimit(syscall.RLIMIT_FSIZE, &old); err != nil {
+				panic(err)
+			}
+		}()
+	}
+	faultAhead := false
+	if s.ff != nil {
+		for _, k := range s.ff.faults {
+			if k >= 0 {
+				faultAhead = true
+			}
+		}
+	}
+	if faultAhead {
+		h, ok := interface{}(s.bs).(finalizeVia)
+		if !ok {
+			panic("blockstore fault injection needs the verif hook VerifFinalizeVia (notes/hooks/c16-blockstore-finalize.patch)")
+		}
+		wrap := func(io.WriterAt) io.WriterAt { return s.ff }
+		if readOnly {
+			return h.VerifFinalizeReadOnlyVia(wrap)
+		}
+		return h.VerifFinalizeVia(wrap)
+	}
+	if readOnly {
+		return s.bs.FinalizeReadOnly()
+	}
+	return s.bs.Finalize()
+}
+
 type storeExtra struct {
-	afterStep func(s *storeSession) []Val
-	callLens  []int // out: buffer length of every intercepted write call of the session
-	hits      int   // out: injected faults that were actually consumed
+	afterStep  func(s *storeSession) []Val
+	afterStep2 func(s *storeSession, tag string, out Val, changed bool) // optional observer
+	fsizeLimit int64                                                    // in: file size limit during the first blockstore finalize operation (0 = none)
+	callOffs   []int64                                                  // out: offset of every intercepted call
+	finalizeAt []int                                                    // out: number of intercepted calls at the start of each blockstore finalize operation
+	callLens   []int                                                    // out: buffer length of every intercepted write call of the session
+	hits       int                                                      // out: injected faults that were actually consumed
 }
 
 // indexCount: number of records in the store's in-memory insertion index
@@ -296,6 +382,9 @@ func runStoreImplX(work string, kind uint64, o wOpts, roots []cid.Cid, faults []
 	}
 	defer os.RemoveAll(dir)
 	s := &storeSession{kind: kind, path: filepath.Join(dir, "a.car")}
+	if x != nil {
+		s.fsizeLimit = x.fsizeLimit
+	}
 	defer s.closeHandles()
 	var openErr error
 	switch kind {
@@ -438,12 +527,12 @@ func runStoreImplX(work string, kind uint64, o wOpts, roots []cid.Cid, faults []
 			}
 		case "finalize":
 			if kind == 0 {
-				out = outOf(s.bs.Finalize())
+				out = outOf(s.bsFinalize(false))
 			} else {
 				out = outOf(s.wc.Finalize())
 			}
 		case "finalizero":
-			out = outOf(s.bs.FinalizeReadOnly())
+			out = outOf(s.bsFinalize(true))
 		case "close":
 			out = outOf(s.bs.Close())
 		case "discard":
@@ -468,8 +557,9 @@ func runStoreImplX(work string, kind uint64, o wOpts, roots []cid.Cid, faults []
 				if ferr != nil {
 					panic(ferr)
 				}
-				s.ff = &faultFile{f: f, faults: rest}
+				s.ff = &faultFile{f: f, faults: rest, inOpen: true}
 				s.sc, err = storage.OpenReadableWritable(s.ff, roots2, o2.v2()...)
+				s.ff.inOpen = false
 				if err == nil {
 					s.wc = s.sc
 				}
@@ -486,6 +576,9 @@ func runStoreImplX(work string, kind uint64, o wOpts, roots []cid.Cid, faults []
 		if x != nil && x.afterStep != nil {
 			so = append(so, x.afterStep(s)...)
 		}
+		if x != nil && x.afterStep2 != nil {
+			x.afterStep2(s, tag, out, !bytes.Equal(cur, s.prev))
+		}
 		obs = append(obs, so)
 		s.prev = cur
 		if stop {
@@ -493,7 +586,9 @@ func runStoreImplX(work string, kind uint64, o wOpts, roots []cid.Cid, faults []
 		}
 	}
 	if x != nil {
+		x.finalizeAt = s.finalizeAt
 		if s.ff != nil {
+			x.callOffs = s.ff.offs
 			x.callLens, x.hits = s.ff.lens, s.ff.hits
 		} else if s.stream != nil {
 			x.callLens, x.hits = s.stream.lens, s.stream.hits
